@@ -620,6 +620,8 @@ pub struct Reattributed<E: Engine> {
     pub from: &'static str,
     pub to: &'static str,
     pub label: &'static str,
+    /// only violations whose signature contains one of these (separated by '|'; "" = all)
+    pub only: &'static str,
 }
 
 impl<E: Engine> Engine for Reattributed<E> {
@@ -641,7 +643,7 @@ impl<E: Engine> Engine for Reattributed<E> {
     }
     fn run(&self, case: &Self::Case) -> Outcome {
         let mut out = self.inner.run(case);
-        let extra: Vec<Violation> = out.violations.iter().filter(|v| v.property == self.from).map(|v| Violation::new(self.to, &v.oracle, format!("{}/{}/{}", self.to, self.label, v.signature), v.detail.clone())).collect();
+        let extra: Vec<Violation> = out.violations.iter().filter(|v| v.property == self.from && (self.only.is_empty() || self.only.split('|').any(|x| v.signature.contains(x)))).map(|v| Violation::new(self.to, &v.oracle, format!("{}/{}/{}", self.to, self.label, v.signature), v.detail.clone())).collect();
         out.violations.extend(extra);
         out
     }
